@@ -106,6 +106,7 @@ pub fn execute(sc: &Scenario, cfg: &RunCfg, src: TapeSrc) -> RunResult {
     };
     servlin::log::clear_thread_local_log_tags();
     sim_core::begin(tape);
+    let _ = sim_core::take_foreign_use();
     sim_core::with(|w| w.keep_events = cfg.keep_trace);
     let out = std::panic::catch_unwind(std::panic::AssertUnwindSafe(|| (sc.func)(cfg)));
     let out = match out {
@@ -134,6 +135,9 @@ pub fn execute(sc: &Scenario, cfg: &RunCfg, src: TapeSrc) -> RunResult {
         counters.insert((*k).to_string(), *v);
     }
     let mut harness_error = out.harness_error;
+    if sim_core::take_foreign_use() {
+        harness_error = Some("simulated API was used on a thread the simulator does not own (the system under test started a real thread?): this run cannot be decided".into());
+    }
     if world.foreign_wake() {
         harness_error = Some("a waker was invoked from a foreign thread: un-owned nondeterminism".into());
     }
